@@ -1037,17 +1037,18 @@ theorem C18_gen_toggle_sites : Gen.Link.toggleSites = [
 src/primaite; a link's `current_load` by its declaration, `transmit_frame` (`+=`, `-=`) and `pre_timestep`.  So no interface
 operation (enable, disable, add / remove from the airspace, `clear`, power events, re-configuration) can lower a load inside a
 tick: the wireless twin of F-40 cannot come back unnoticed. -/
+-- (round 7) HOW `can_transmit_frame`, `transmit` and `transmit_frame` write the load is no longer pinned textually here: their
+-- bodies are translated statement by statement and proved equal to the model (`Props/C18Body.lean`, `C18_gen_*_body`).
 theorem C18_gen_load_writers :
     Gen.Link.airLoadWriters = [
   "airspace.py:AirSpace.<module>:bandwidth_load declared",
-  "airspace.py:AirSpace.can_transmit_frame:bandwidth_load[…] =",
+  "airspace.py:AirSpace.can_transmit_frame:(body translated)",
   "airspace.py:AirSpace.reset_bandwidth_load:bandwidth_load =",
-  "airspace.py:AirSpace.transmit:bandwidth_load[…] Add="] ∧
+  "airspace.py:AirSpace.transmit:(body translated)"] ∧
     Gen.Link.linkLoadWriters = [
   "base.py:Link.<module>:current_load declared",
   "base.py:Link.pre_timestep:current_load =",
-  "base.py:Link.transmit_frame:current_load Add=",
-  "base.py:Link.transmit_frame:current_load Sub="] := by decide
+  "base.py:Link.transmit_frame:(body translated)"] := by decide
 
 /-- `AirSpace.add_wireless_interface`, `remove_wireless_interface` and `clear` have exactly the steps the model's `wjoin` /
 `wleave` stand for (registry and per-frequency interface lists; the extractor refuses any other statement). -/
